@@ -17,7 +17,7 @@ CONFIG = {
                    "'verified'. Sampling of the 63^n format-sequence space, weighted towards sequences that drop the first "
                    "recorded format."),
     "technique": "deterministic simulation: seeded generation histories (format subsets x keep/alter/restore) against an action/exit reference model",
-    "quick": {"runs": 480, "budget_s": 60},
+    "quick": {"runs": 1440, "budget_s": 90},
     "thorough": {"runs": 9000, "budget_s": 540},
     "rule": ("one run = world with 1..3 tracked files (half of the runs with one inside a nested history) + 2..6 create steps "
              "with format subsets and keep/alter/restore edits; one evaluation = one create judged. Distinct = (tuple of "
